@@ -91,7 +91,119 @@ def explore(ctx):
                 res.failures.append({"what": f"a non-member of a Literal type raised {r_['err']} instead of ValueError", "input": inp, "real": r_})
             else:
                 res.count("oracle:literal-rejected")
+    check_subclass_instances(res)
     return res
+
+
+# ---- subclass instances (the quantifier names them: IntEnum, str subclasses, pendulum temporals, OrderedDict / deque containers)
+SUB_PRELUDE = """
+import collections, dataclasses, datetime, decimal, enum, typing
+class Level(enum.IntEnum):
+    LOW = 1
+    HIGH = 2
+class Flag(enum.IntFlag):
+    A = 1
+    B = 2
+class Color(str, enum.Enum):
+    RED = "red"
+class MyInt(int):
+    pass
+class Celsius(float):
+    pass
+class S(str):
+    pass
+class MyDec(decimal.Decimal):
+    pass
+class MyList(list):
+    pass
+class MyDict(dict):
+    pass
+@dataclasses.dataclass
+class Reading:
+    sensor: int
+    level: int
+    value: float
+    name: str
+    history: list[int]
+    by_slot: dict[int, float]
+    opt: typing.Optional[int] = None
+try:
+    import pendulum
+except Exception:
+    pendulum = None
+"""
+SUB_CASES = [
+    ("int", "True"), ("int", "Level.HIGH"), ("int", "Flag.A | Flag.B"), ("int", "MyInt(5)"), ("float", "Celsius(21.5)"), ("float", "True"),
+    ("float", "Level.LOW"), ("float", "MyInt(3)"), ("str", "S('ab')"), ("str", "Color.RED"), ("bool", "True"),
+    ("list[int]", "[True, Level.LOW, MyInt(2)]"), ("list[int]", "collections.deque([1, True])"), ("list[int]", "MyList([1, 2])"),
+    ("list[str]", "[S('a'), Color.RED]"), ("dict[int, float]", "{Level.LOW: Celsius(1.5), True: 2}"),
+    ("dict[str, int]", "collections.OrderedDict([('a', True), (S('b'), Level.HIGH)])"), ("dict[str, int]", "MyDict(a=1)"),
+    ("typing.Optional[int]", "False"), ("typing.Optional[float]", "Celsius(0.5)"), ("tuple[int, str]", "(True, S('x'))"),
+    ("tuple[int, ...]", "(Level.LOW, True)"), ("set[int]", "{True, Level.HIGH}"), ("decimal.Decimal", "MyDec('1.5')"),
+    ("Reading", "Reading(MyInt(7), Level.HIGH, Celsius(36.6), S('n'), [True, Level.LOW], {Level.LOW: 0.5}, False)"),
+    ("list[Reading]", "[Reading(True, 2, 1, Color.RED, MyList([1]), MyDict(), None)]"),
+    ("datetime.datetime", "pendulum.datetime(2020, 1, 2, 3, 4, 5) if pendulum else datetime.datetime(2020, 1, 2, tzinfo=datetime.timezone.utc)"),
+    ("datetime.date", "pendulum.date(2020, 1, 2) if pendulum else datetime.date(2020, 1, 2)"),
+    ("datetime.timedelta", "pendulum.duration(days=1, seconds=5) if pendulum else datetime.timedelta(days=1, seconds=5)"),
+    ("typing.Union[int, str]", "True"), ("typing.Union[float, None]", "Celsius(2.5)"),
+]
+
+
+def _sub_child(job):
+    import json as _json
+    import sys
+    import types
+    import warnings
+    warnings.simplefilter("ignore")
+    import typelib
+    mod = types.ModuleType("vm_c06_sub")
+    sys.modules["vm_c06_sub"] = mod
+    exec(SUB_PRELUDE, mod.__dict__)
+    out = []
+    for texpr, vexpr in job:
+        T, v = eval(texpr, mod.__dict__), eval(vexpr, mod.__dict__)
+        rec = {"t": texpr, "v": vexpr}
+        try:
+            m = typelib.marshal(v, t=T)
+        except Exception as e:  # noqa: BLE001
+            rec["err"] = f"{type(e).__name__}: {e}"[:160]
+            out.append(rec)
+            continue
+        rec["shown"] = repr(m)[:160]
+        bad = []
+        why = core.plain_reason(m)
+        if why:
+            bad.append("not plain: " + why)
+        try:
+            _json.dumps(m)
+        except Exception as e:  # noqa: BLE001
+            bad.append(f"json.dumps rejects it: {type(e).__name__}")
+        ids_in, ids_out = set(), set()
+        core._walk_ids(v, ids_in)
+        core._walk_ids(m, ids_out)
+        if ids_in & ids_out:
+            bad.append("shares a mutable container with the input")
+        rec["bad"] = bad
+        out.append(rec)
+    return out
+
+
+def check_subclass_instances(res):
+    from .. import iso
+    core.import_typelib()
+    out = iso.map_isolated(_sub_child, [SUB_CASES], timeout=120)[0]
+    if not isinstance(out, list):
+        raise RuntimeError(f"harness: subclass probe failed: {out}")
+    for rec in out:
+        res.case({"ann": rec["t"], "value": rec["v"]}, True)
+        inp = {"subclass_case": [rec["t"], rec["v"]]}
+        if "err" in rec:
+            # a valid subclass instance must be marshalled like an instance of the base class
+            res.failures.append({"what": f"marshal of a valid subclass instance raised {rec['err']}", "input": inp})
+        elif rec["bad"]:
+            res.failures.append({"what": "; ".join(rec["bad"]) + f" (output {rec['shown']})", "input": inp})
+        else:
+            res.count("oracle:subclass-instance-plain-ok")
 
 
 def witness(fid):
@@ -100,6 +212,12 @@ def witness(fid):
 
 def replay(failure):
     inp = failure["input"]
+    if "subclass_case" in inp:
+        from .. import iso
+        core.import_typelib()
+        out = iso.map_isolated(_sub_child, [[tuple(inp["subclass_case"])]], timeout=60)[0]
+        print(json.dumps(out, indent=1))
+        return bool(out[0].get("err") or out[0].get("bad"))
     job = {"prog": inp["prog"], "ops": [{"op": "mar", "ty": inp["ty"], "val": inp["val"], "obs": ["plain"]}]}
     real, model = core.run_jobs([job])
     r_ = real[0][0]
